@@ -699,13 +699,16 @@ func (m *Machine) execCoroCall(fr *frame, s *Stmt) flow {
 	return flow{}
 }
 
-// poisonPointers marks pointer-typed locals (not arguments) as carrying no
-// promise after a resumption.
+// poisonPointers: pointer-typed locals (slices, pointers, I/O locals) are not
+// saved across a suspension; in the generated C they are re-declared
+// zero-initialised when the coroutine is re-entered. After a resumption they
+// therefore hold their zero value (the nil slice, nullptr, an unset I/O value);
+// the Poison flag only feeds the PoisonUses counter.
 func poisonPointers(fn *Func, vars []Value) {
 	for i, l := range fn.Locals {
 		switch l.Typ.K {
 		case TSlice, TPtr, TIOReader, TIOWriter:
-			v := vars[len(fn.Args)+i]
+			v := fn.Prog.ZeroValue(l.Typ)
 			v.Poison = true
 			vars[len(fn.Args)+i] = v
 		}
